@@ -248,7 +248,7 @@ pub fn cert_space(conformant_only: bool, with_hash_key_ids: bool) -> Space<CertS
             d.values.retain(|(l, _)| !l.starts_with("nc:") && !l.starts_with("uc:"));
         }
     }
-    Space { base: CertState::default(), dims }
+    Space { base: crate::glue::base_cert_state(), dims }
 }
 
 /// Representative deviation of each dimension for the presence/absence lattice.
